@@ -105,6 +105,10 @@ def build_jobs(ctx, rng):
         kinds = ('offset', 'tiny', 'huge')
         for kind in (kinds if ctx.thorough else (kinds[int(rng.integers(0, 3))], 'offset')[:2 if rng.random() < 0.5 else 1]):
             add(name, kw, data=kind, tag='.' + kind)
+        # ... and on x-axes of unusual magnitude (the accelerated and the fall-back paths must treat the axis alike)
+        xkinds = ('xsmall', 'xhuge', 'xoffset')
+        for kind in (xkinds if ctx.thorough else (xkinds[int(rng.integers(0, 3))],)):
+            add(name, kw, data=kind, tag='.' + kind)
     for host in WHIT_STD + ['iasls', 'aspls', 'drpls']:
         for d in (1, 2, 3):
             if host in ('iasls', 'drpls') and d < 2:
